@@ -1,6 +1,9 @@
 import BppProofs.Lemmas.Rand
 import BppProofs.Lemmas.RandRcont
 import BppProofs.Lemmas.RandLaw
+import BppProofs.Lemmas.RandSampleLaw
+import BppProofs.Lemmas.RandMonteCarlo
+import BppProofs.Lemmas.RandLawPred
 /-!
 # C18 — random draws   (RandomTools, ContingencyTableGenerator, ContingencyTableTest, discrete rand)
 
@@ -118,6 +121,24 @@ theorem nonempty_no_raise {τ : Type} (v : List τ) (replace : Bool) (pos : Nat)
     (∃ r, pickOne v replace pos = .ok r) ∧ (∃ r, pickOneConst v pos = .ok r) := by
   obtain ⟨e, _, hp⟩ := pickOne_ok replace hpos
   exact ⟨⟨_, hp⟩, ⟨_, pickOneConst_ok hpos⟩⟩
+
+/-- the law of the unweighted picks given the integer draw (`FAIL:pick_law` in the driver): both
+`pickOne(v, replace)` and `pickOne(const v)` return the element at the position the draw designates
+— so a uniform draw on `0..n-1` (the primitive's contract) gives every position probability `1/n` -/
+theorem pick_law {τ : Type} [BEq τ] [LawfulBEq τ] (v : List τ) (replace : Bool) (pos : Nat) :
+    (∀ e rest, pickOne v replace pos = .ok (e, rest) → lawPickAt v pos e = true) ∧
+    (∀ e, pickOneConst v pos = .ok e → lawPickAt v pos e = true) :=
+  ⟨fun e rest h => pickOne_lawPickAt v replace pos e rest h, fun e h => pickOneConst_lawPickAt v pos e h⟩
+
+/-- … and of the unweighted sample with replacement (`FAIL:sample_repl_law`): element `i` of the
+sample is the source element at the position integer draw `i` designates, for every size -/
+theorem sample_repl_law {τ : Type} [BEq τ] [LawfulBEq τ] (vin : List τ) (k : Nat) (draws hat : List Nat) (out : List τ)
+    (h : getSample vin k true draws hat = .ok out) : lawSampleUnif vin (draws.take k) out = true := by
+  simp only [getSample, Bool.not_true, Bool.and_false, Bool.false_eq_true, if_false, if_true] at h
+  exact sampleRepl_law vin k draws out h
+
+example : lawSampleUnif [10, 20, 30] [0, 2, 2, 1] [10, 30, 30, 20] = true := by decide
+example : lawSampleUnif [10, 20, 30] [0, 2] [10, 20] = false := by decide
 
 /-- before `fix:` 57b79ce `pickFromCumSum` of an empty vector read `w[0]` (segfault on the real code,
 corpus/C18/cumsum-empty.txt) instead of raising -/
@@ -243,6 +264,127 @@ theorem weighted_pick_total {α : Type} [Scalar α] (w : List α) (u : α) (hw :
     ∃ pos, weightedIndex w.length w u = .ok pos ∧ pos < w.length :=
   weightedIndex_ok (List.length_pos_iff.mpr hw) rfl u
 
+/-! ### the law as an executable predicate: what the driver evaluates on the implementation's
+recorded draws (`FAIL:weighted_pick_law`, `FAIL:weighted_sample_law`, `FAIL:weighted_sample_norepl_law`) -/
+
+/-- `inWeightInterval w u i` says: `Σ_{j<i} wⱼ / Σw ≤ u < Σ_{j≤i} wⱼ / Σw` -/
+theorem inWeightInterval_spec (w : List ℝ) (u : ℝ) (i : Nat) (hi : i < w.length) :
+    inWeightInterval w u i = true ↔ (w.take i).sum / w.sum ≤ u ∧ u < (w.take (i + 1)).sum / w.sum :=
+  inWeightInterval_iff w u i hi
+
+/-- `weighted_pick_law` in predicate form: for non-negative weights with a positive total and a
+uniform draw `u ∈ [0,1)`, position `i` is chosen iff the weight interval of `i` contains `u` -/
+theorem weighted_pick_law_interval (w : List ℝ) (u : ℝ) (i : Nat) (hi : i < w.length)
+    (hw : weightsOk w = true) (hu0 : 0 ≤ u) (hu1 : u < 1) :
+    weightedIndex w.length w u = .ok i ↔ inWeightInterval w u i = true := by
+  obtain ⟨h1, h2⟩ := (weightsOk_iff w).mp hw
+  exact weightedIndex_iff_interval w u i hi h1 h2 hu0 hu1
+
+/-- the weight intervals partition `[0,1)`: every draw lies in the interval of exactly one position
+(so "the element whose weight interval contains the draw" is well defined) -/
+theorem weight_intervals_partition (w : List ℝ) (u : ℝ) (hw : weightsOk w = true) (hu0 : 0 ≤ u) (hu1 : u < 1) :
+    ∃ i, i < w.length ∧ inWeightInterval w u i = true ∧ ∀ j, inWeightInterval w u j = true → j = i := by
+  obtain ⟨h1, h2⟩ := (weightsOk_iff w).mp hw
+  have hne : w ≠ [] := by intro h; subst h; simp at h2
+  obtain ⟨i, hi, hlt⟩ := weighted_pick_total w u hne
+  refine ⟨i, hlt, (weightedIndex_iff_interval w u i hlt h1 h2 hu0 hu1).mp hi, ?_⟩
+  intro j hj
+  have hjl := inWeightInterval_lt_length w u j hj
+  have := (weightedIndex_iff_interval w u j hjl h1 h2 hu0 hu1).mpr hj
+  rw [hi] at this
+  exact (Except.ok.inj this).symm
+
+/-- both weighted `pickOne` overloads follow the weights: the element returned is one whose weight
+interval contains the draw -/
+theorem weighted_pick_follows_weights {τ : Type} [BEq τ] [LawfulBEq τ] (v : List τ) (w : List ℝ) (replace : Bool) (u : ℝ)
+    (hv : v ≠ []) (hwl : w.length = v.length) (hw : weightsOk w = true) (hu0 : 0 ≤ u) (hu1 : u < 1) :
+    (∃ e v' w', pickOneW v w replace u = .ok (e, v', w') ∧ lawElem v w u e = true) ∧
+    (∃ e, pickOneWConst v w u = .ok e ∧ lawElem v w u e = true) := by
+  obtain ⟨h1, h2⟩ := (weightsOk_iff w).mp hw
+  refine ⟨pickOneW_law v w replace u hv hwl h1 h2 hu0 hu1, ?_⟩
+  obtain ⟨e, v', w', hp, hl⟩ := pickOneW_law v w true u hv hwl h1 h2 hu0 hu1
+  exact ⟨e, by simp [pickOneWConst, hp], hl⟩
+
+/-- `weighted_sample_law`: every element of a weighted sample WITH replacement is the element whose
+weight interval (normalised by `Σw`) contains its own uniform draw — for every sample size `k`,
+shorter than, equal to or longer than the source -/
+theorem weighted_sample_law {τ : Type} [BEq τ] [LawfulBEq τ] (vin : List τ) (w : List ℝ) (k : Nat) (draws : List ℝ)
+    (hwl : w.length = vin.length) (hw : weightsOk w = true) (hk : k ≤ draws.length)
+    (hu : ∀ u ∈ draws, 0 ≤ u ∧ u < 1) :
+    ∃ out, getSampleW vin w k true draws = .ok out ∧ out.length = k ∧
+      lawSampleRepl vin w (draws.take k) out = true := by
+  obtain ⟨h1, h2⟩ := (weightsOk_iff w).mp hw
+  have hne : vin ≠ [] := by
+    intro h; subst h
+    have : w = [] := List.length_eq_zero_iff.mp (by simpa using hwl)
+    subst this; simp at h2
+  obtain ⟨out, ho⟩ := sampleWRepl_ok w hwl hne k draws hk
+  have hlen := (sampleWRepl_mem _ w k draws out ho).1
+  exact ⟨out, by simp [getSampleW, ho], hlen, sampleWRepl_law vin w hwl h1 h2 k draws out hk hu ho⟩
+
+/-- `weighted_sample_norepl_law`: the same WITHOUT replacement — each element is the one whose
+interval among the elements still present (with their own weights) contains its draw — as long as
+the sample is not larger than the number of positive weights (beyond that the code divides 0/0 and
+falls back to the last remaining element) -/
+theorem weighted_sample_norepl_law {τ : Type} [BEq τ] [LawfulBEq τ] (vin : List τ) (w : List ℝ) (k : Nat) (draws : List ℝ)
+    (hwl : w.length = vin.length) (hw : ∀ y ∈ w, 0 ≤ y) (hkp : k ≤ nPositive w) (hk : k ≤ draws.length)
+    (hu : ∀ u ∈ draws, 0 ≤ u ∧ u < 1) :
+    ∃ out, getSampleW vin w k false draws = .ok out ∧ lawSampleNoRepl (draws.take k) out vin w = true := by
+  have hkl : k ≤ vin.length := by
+    have : nPositive w ≤ w.length := List.length_filter_le _ _
+    omega
+  obtain ⟨ps, hps, hlaw⟩ := pickPositionsNoRepl_law k (List.range vin.length) w draws (by simp [hwl]) hw hkp hk hu
+  obtain ⟨ps', hps', _, hsub⟩ := pickPositionsNoRepl_ok k (List.range vin.length) w draws (by simp [hwl]) (by simpa using hkl) hk
+  rw [hps] at hps'
+  have hpe : ps' = ps := (Except.ok.inj hps').symm
+  subst hpe
+  have hlt : ∀ i ∈ ps', i < vin.length := fun i hi => List.mem_range.mp (hsub.subset hi)
+  obtain ⟨out, ho, _⟩ := selectBy_ok hlt
+  refine ⟨out, ?_, ?_⟩
+  · have : ¬ vin.length < k := by omega
+    simp [getSampleW, this, hps, ho]
+  · cases hv : vin with
+    | nil =>
+      subst hv
+      have hk0 : k = 0 := by simpa using hkl
+      subst hk0
+      have : ps' = [] := by
+        unfold pickPositionsNoRepl at hps; exact (Except.ok.inj hps).symm
+      subst this
+      simp only [selectBy, Except.ok.injEq] at ho; subst ho
+      simp [lawSampleNoRepl]
+    | cons a rest =>
+      have hmap := lawSampleNoRepl_map (fun p => vin[p]?.getD a) (draws.take k) ps' (List.range vin.length) w hlaw
+      rw [range_map_getD a, ← selectBy_eq_map a ps' out ho] at hmap
+      rw [← hv]; exact hmap
+
+/-! non-vacuity: weights 1, 3 (not normalised): `u = 0.2` lies in `[0, 1/4)`, `u = 0.5` in `[1/4, 1)`;
+a sampler that compared `u` with the un-normalised cumulative sums `1, 4` would return the first
+element for both draws and fail the predicate on the second -/
+example : inWeightInterval ([1, 3] : List ℝ) (1 / 5) 0 = true ∧ inWeightInterval ([1, 3] : List ℝ) (1 / 2) 1 = true
+    ∧ inWeightInterval ([1, 3] : List ℝ) (1 / 2) 0 = false := by
+  refine ⟨?_, ?_, ?_⟩
+  · rw [inWeightInterval_spec _ _ _ (by simp)]; norm_num
+  · rw [inWeightInterval_spec _ _ _ (by simp)]; norm_num
+  · rw [Bool.eq_false_iff]; intro h
+    rw [inWeightInterval_spec _ _ _ (by simp)] at h; norm_num at h
+example : weightsOk ([1, 3] : List ℝ) = true := (weightsOk_iff _).mpr ⟨by simp, by norm_num⟩
+example : ∃ out, getSampleW [10, 20] ([1, 3] : List ℝ) 3 true [1 / 5, 1 / 2, 9 / 10] = .ok out ∧ out.length = 3 ∧
+    lawSampleRepl [10, 20] ([1, 3] : List ℝ) [1 / 5, 1 / 2, 9 / 10] out = true :=
+  weighted_sample_law [10, 20] [1, 3] 3 _ rfl ((weightsOk_iff _).mpr ⟨by simp, by norm_num⟩) (by simp)
+    (by intro u hu; simp only [List.mem_cons, List.not_mem_nil, or_false] at hu; rcases hu with rfl | rfl | rfl <;> norm_num)
+/-- the sample `10, 10` for the draws `0.2, 0.5` (what a pick from the un-normalised cumulative sums
+returns) does not satisfy the predicate -/
+example : lawSampleRepl [10, 20] ([1, 3] : List ℝ) [1 / 5, 1 / 2] [10, 10] = false := by
+  rw [Bool.eq_false_iff]; intro h
+  simp only [lawSampleRepl, Bool.and_eq_true, lawElem, List.any_eq_true, List.mem_range] at h
+  obtain ⟨_, ⟨i, hi, h2⟩, _⟩ := h
+  simp only [List.length_cons, List.length_nil] at hi
+  have hi' : i = 0 ∨ i = 1 := by omega
+  rcases hi' with rfl | rfl
+  · rw [inWeightInterval_spec _ _ _ (by simp)] at h2; norm_num at h2
+  · simp at h2
+
 /-- `pickFromCumSum` on a cumulative vector `c = pre ++ x :: post`: the position of `x` is returned
 iff every earlier entry is `< u` and (`x` is the last entry or `u ≤ x`).  For a non-decreasing `c`
 this is the interval `(c_{i-1}, c_i]` (closed at 0 for `i = 0`, open-ended for the last index), of
@@ -250,6 +392,11 @@ length `c_i - c_{i-1}` within `[0,1)` when the last entry is 1. -/
 theorem cumsum_pick_law (pre : List ℝ) (x : ℝ) (post : List ℝ) (u : ℝ) :
     pickFromCumSum (pre ++ x :: post) u = .ok pre.length ↔ (∀ y ∈ pre, y < u) ∧ (post = [] ∨ u ≤ x) :=
   pickFromCumSum_decomp pre x post u
+
+/-- the same as the executable predicate the driver evaluates on the implementation's recorded
+draw (`FAIL:cumsum_pick_law`) -/
+theorem cumsum_pick_law_pred (w : List ℝ) (u : ℝ) (p : Nat) (hp : p < w.length) :
+    pickFromCumSum w u = .ok p ↔ cumSumPickOk w u p = true := pickFromCumSum_iff_ok w u p hp
 
 /-- for a non-decreasing cumulative vector "every earlier entry" is "the previous entry" -/
 theorem cumsum_pick_law_sorted (pre : List ℝ) (a x : ℝ) (post : List ℝ) (u : ℝ)
@@ -311,6 +458,16 @@ theorem multinomial_state_law (pre : List ℝ) (x : ℝ) (post : List ℝ) (r : 
       (pre = [] ∨ pre.sum / (pre ++ x :: post).sum < r) ∧ r ≤ (pre.sum + x) / (pre ++ x :: post).sum :=
   multinomialState_decomp pre x post r hw hS
 
+/-- the executable form (`FAIL:multinomial_state_law` in the driver): for ALL draws and ALL
+`probs`, every state `randMultinomial` returns lies on the step of the running sums of
+`probs/Σprobs` on which its own draw falls (`c[j-1] < r ≤ c[j]`; the "not found" state above all) -/
+theorem multinomial_state_law_pred (probs : List ℝ) (n : Nat) (draws : List ℝ) (hd : n ≤ draws.length) :
+    ∃ states, randMultinomial probs n draws = .ok states ∧
+      List.Forall₂ (fun r s => multinomialLawOk probs r s = true) (draws.take n) states := by
+  refine ⟨_, randMultinomial_eq probs n draws hd, ?_⟩
+  rw [List.forall₂_map_right_iff]
+  exact List.forall₂_same.mpr (fun r _ => multinomialState_law probs r)
+
 /-- with a draw `r ≤ 1` the "not found" state never occurs (exact arithmetic) -/
 theorem multinomial_state_range (probs : List ℝ) (r : ℝ) (hw : ∀ y ∈ probs, 0 ≤ y) (hS : 0 < probs.sum) (hr : r ≤ 1) :
     multinomialState probs r < probs.length := multinomialState_lt probs r hw hS hr
@@ -326,6 +483,11 @@ theorem drand_law (pre : List (ℝ × ℝ)) (c p : ℝ) (post : List (ℝ × ℝ
   apply dRandFrom_decomp r c p post pre _ hpre
   · simpa using hlo
   · simpa using hhi
+
+/-- the executable form (`FAIL:drand_law` in the driver): the category returned is the one on
+whose step of the cumulative probabilities the draw falls -/
+theorem drand_law_pred (dist : List (ℝ × ℝ)) (r : ℝ) (hne : dist ≠ []) (hr : r ≤ (dist.map (·.2)).sum) :
+    dRandLawOk dist r (dRand dist r) = true := dRand_law dist r hr hne
 
 /-- the "can't be reached" `return -1.` is not reached when the draw is at most the total mass:
 the result is one of the categories -/
@@ -394,6 +556,21 @@ theorem hmm_sample_defined (n : Nat) (eq : List ℝ) (rows : List (List ℝ)) (h
         · omega
         · exact hmem s hs
 
+/-- the executable form of the chain's law (`FAIL:hmm_sample_law` in the driver), for every scalar
+type, all draws, all matrices: the first state lies on the step of its draw within the equilibrium
+frequencies (or is the initial value 0 when no step is found), each following state on the step of
+its own draw within the transition row of its predecessor (`hmmStepOk`; for a non-negative row this
+is `Σ_{j<i} p_j ≤ u < Σ_{j≤i} p_j`, `hmm_step_law`) -/
+theorem hmm_sample_law {α : Type} [Scalar α] (eq : List α) (rows : List (List α)) (size : Nat) (draws : List α) (l : List Nat)
+    (h : hmmSample eq rows size draws = .ok l) : hmmSampleLawOk eq rows (draws.take size) l = true :=
+  hmmSample_law eq rows size draws l h
+
+/-- the step predicate is the subtractive search of the code -/
+theorem hmm_step_pred {α : Type} [Scalar α] (p : List α) (u : α) (i : Nat) :
+    subtractSearch u p 0 = some i ↔ hmmStepOk p u i = true := by
+  have := subtractSearch_iff_stepOk p u 0 i
+  simpa using this
+
 /-- in floating point a row can sum to slightly less than 1; a draw above the sum then leaves `stb`
 uninitialised (the model's `ub`): a row `[0.5, 0.25]` and the draw `0.9` -/
 theorem hmm_uninitialised_witness : hmmChain [[(1 : ℝ) / 2, 1 / 4], [1 / 2, 1 / 2]] 0 1 [9 / 10] = .error .ub := by
@@ -402,11 +579,65 @@ theorem hmm_uninitialised_witness : hmmChain [[(1 : ℝ) / 2, 1 / 4], [1 / 2, 1 
 
 /-! ## the permutation p-value of `ContingencyTableTest` -/
 
-/-- `pvalue_range`: whatever the simulated statistics, `(count+1)/(nbPermutations+1)` lies in `(0, 1]` -/
-theorem pvalue_range (stat : ℝ) (sims : List ℝ) :
+/-- `pvalue_range`, about the transcribed Monte-Carlo loop of the constructor
+(`count = 0; for (k = 0; k < nbPermutations; ++k) { …rcont2()…; if (stat_rep >= statistic_) count++; }
+pvalue_ = (count + 1) / (nbPermutations + 1)`): for every observed statistic, every number of
+permutations and every stream of replicate statistics, the loop ends with `count ≤ nbPermutations`,
+hence the p-value lies in `(0, 1]` -/
+theorem pvalue_range (stat : ℝ) (nb : Nat) (sims : List ℝ) (p : ℝ) (h : mcPValue stat nb sims = .ok p) :
+    0 < p ∧ p ≤ 1 := by
+  unfold mcPValue mcPValueWith loopIterations at h
+  simp only [if_true] at h
+  cases hc : mcCount stat nb sims 0 with
+  | error e => rw [hc] at h; cases h
+  | ok count =>
+    rw [hc] at h
+    simp only [Except.ok.injEq] at h; subst h
+    have := (mcCount_bounds stat nb sims 0 count hc).2
+    exact pvalueOfCount_range count nb (by omega)
+
+/-- the loop draws exactly `nbPermutations` tables (it consumes that many statistics of the stream,
+whatever follows them) and its result is the filter form `permPValue` on them -/
+theorem pvalue_loop_draws_nb_tables {α : Type} [Scalar α] (stat : α) (nb : Nat) (sims : List α) :
+    (nb ≤ sims.length → mcPValue stat nb sims = .ok (permPValue stat (sims.take nb))) ∧
+    (sims.length < nb → mcPValue stat nb sims = .error .starved) := by
+  constructor
+  · intro h
+    unfold mcPValue mcPValueWith loopIterations permPValue
+    simp only [if_true, mcCount_eq stat nb sims 0 h, Nat.zero_add, List.length_take, Nat.min_eq_left h]
+  · intro h
+    unfold mcPValue mcPValueWith loopIterations
+    simp only [if_true, mcCount_starved stat nb sims 0 h]
+
+/-- `pvalue_range` in the filter form: whatever the simulated statistics,
+`(count+1)/(nbPermutations+1)` lies in `(0, 1]` -/
+theorem pvalue_range_of_sims (stat : ℝ) (sims : List ℝ) :
     0 < permPValue stat sims ∧ permPValue stat sims ≤ 1 := by
   unfold permPValue
   exact pvalueOfCount_range _ _ (countGe_le stat sims)
+
+/-- the bound of the loop matters: with `k <= nbPermutations` (one table too many; seeded change
+C18-b2) a table whose statistic no replicate undercuts gets `p = (nb+2)/(nb+1) > 1` -/
+theorem pvalue_loop_le_witness : mcPValueWith "<=" (0 : ℝ) 1 [1, 1] = .ok (3 / 2) := by
+  have h : mcCount (0 : ℝ) 2 [1, 1] 0 = .ok 2 := by
+    rw [mcCount_eq _ _ _ _ (by simp)]; simp [countGe, Scalar.geb]
+  have e : loopIterations "<=" 1 = some 2 := by decide
+  simp only [mcPValueWith, e, h, pvalueOfCount, ScalarReal.ofInt_eq, sdiv]
+  norm_num
+
+/-- the source has `k = 0; k < nbPermutations` and `count = 0` (regenerated on every run) -/
+theorem pvalue_loop_source :
+    ("ContingencyTableTest.loop", "<") ∈ Generated.comparisons ∧
+    ("ContingencyTableTest.count", ">=") ∈ Generated.comparisons ∧
+    ("ContingencyTableTest.pvalue=(count+1)/(nbPermutations+1)", "/") ∈ Generated.comparisons := by decide
+
+/-! non-vacuity: two replicates, one of them at least the observed statistic: `p = 2/3` -/
+example : mcPValue (2 : ℝ) 2 [1, 3, 7] = .ok (2 / 3) := by
+  have h : mcCount (2 : ℝ) 2 [1, 3, 7] 0 = .ok 1 := by
+    rw [mcCount_eq _ _ _ _ (by simp)]; simp [countGe, Scalar.geb]; norm_num
+  have e : loopIterations "<" 2 = some 2 := by decide
+  simp only [mcPValue, mcPValueWith, e, h, pvalueOfCount, ScalarReal.ofInt_eq, sdiv]
+  norm_num
 
 /-- replicates whose statistic ties with the observed one count (`>=`): if every simulated
 statistic is at least the observed one the p-value is exactly 1 -/
@@ -428,31 +659,43 @@ theorem pvalue_range_of_count (count nb : Nat) (h : count ≤ nb) :
 
 /-! ## parameter conventions of the sampler wrappers (table regenerated from the sources) -/
 
-/-- `wrapper_conventions`: for every sampler wrapper found in RandomTools.h / RandomTools.cpp, the law
-of the standard-library family with the arguments the wrapper passes to it is the law the
-library's own cumulative functions mean by the wrapper's parameter names (a mean is the mean, a
-rate the rate, a variance the variance), for all positive parameter values.  Canonical
-parametrisation: normal (mean, variance); exponential (rate); gamma (shape, rate). -/
+/-- `wrapper_conventions`: for every sampler wrapper found in RandomTools.h / RandomTools.cpp
+(`giveRandomNumberBetweenZeroAndEntry`, `flipCoin`, `randGaussian`, `randGamma` (both), `randExponential`,
+`randBeta`), the law of the standard-library family with the arguments the wrapper passes to it is
+the law the library's own cumulative functions mean by the wrapper's parameter names (a mean is the
+mean, a rate the rate, a variance the variance) — for ALL real parameter values (a variance
+non-negative).  Canonical parametrisation: normal (mean, variance); exponential (rate); gamma
+(shape, rate); beta (α, β); uniform (lo, hi); plus a location. -/
 theorem wrapper_conventions : ∀ w ∈ Generated.wrappers,
     ∃ a b, stdLawS w.family w.args = some a ∧ libLawS w.name = some b ∧
-      ∀ ρ : String → ℝ, (∀ n, 0 < ρ n) → a.eval ρ = b.eval ρ := by
+      ∀ ρ : String → ℝ, (∀ n ∈ nonnegParams, 0 ≤ ρ n) → a.eval ρ = b.eval ρ := by
   intro w hw
   exact wrapperOk_sound (List.all_eq_true.mp wrappers_all_ok w hw)
 
-/-- the same for each distribution class' `randC()`: the law of the wrapper it calls, with the
-arguments it passes, is the law of the class' own `pProb` -/
+/-- the same for each distribution class' `randC()` (Beta, Exponential, Gamma with its offset,
+Gaussian, TruncatedExponential, Uniform): the law of the wrapper it calls, with the arguments it
+passes and the shift it adds, is the law of the class' own `pProb` -/
 theorem randC_conventions : ∀ r ∈ Generated.randCs,
     ∃ a b, randCLawS Generated.wrappers r = some a ∧ distLawS r.dist = some b ∧
-      ∀ ρ : String → ℝ, (∀ n, 0 < ρ n) → a.eval ρ = b.eval ρ := by
+      ∀ ρ : String → ℝ, (∀ n ∈ nonnegParams, 0 ≤ ρ n) → a.eval ρ = b.eval ρ := by
   intro r hr
   exact randCOk_sound (List.all_eq_true.mp randCs_all_ok r hr)
 
-/-- every drawing wrapper the hand-written table knows is present in the regenerated table -/
+/-- every drawing wrapper the hand-written table knows is present in the regenerated table, and
+every distribution family with a direct continuous draw -/
 theorem wrapper_table_complete :
     ["giveRandomNumberBetweenZeroAndEntry/1", "flipCoin/1", "randGaussian/2", "randGamma/1", "randGamma/2",
       "randBeta/2", "randExponential/1"].all (fun n => Generated.wrappers.any (fun w => w.name == n)) = true ∧
-    ["Beta", "Exponential", "Gamma", "Gaussian", "TruncatedExponential"].all
+    ["Beta", "Exponential", "Gamma", "Gaussian", "TruncatedExponential", "Uniform"].all
       (fun d => Generated.randCs.any (fun r => r.dist == d)) = true := by decide
+
+/-- what the table says for two of them, spelled out: `UniformDiscreteDistribution::randC` draws
+`U(0, max - min) + min`, which is the uniform law on `(min, max)` of its `pProb`; `Gamma…::randC`
+draws `Gamma(alpha, rate beta) + offset` -/
+example : randCLawS Generated.wrappers ⟨"Uniform", "giveRandomNumberBetweenZeroAndEntry/1", [.sub (.var "max") (.var "min")], .var "min"⟩
+    = some ⟨.uniform, [.add (.lit 0 1) (.var "min"), .add (.sub (.var "max") (.var "min")) (.var "min")], Expr.zero⟩ := by decide
+example : (LawS.norm ⟨.uniform, [.add (.lit 0 1) (.var "min"), .add (.sub (.var "max") (.var "min")) (.var "min")], Expr.zero⟩)
+    = ⟨.uniform, [.var "min", .var "max"], Expr.zero⟩ := by decide
 
 /-- which end of each interval is closed is decided by one comparison operator in the source; hitting
 such an end point has probability about `2^-53` per draw, so no execution ties it.  The operators
@@ -464,7 +707,8 @@ theorem source_comparisons :
       [("pickOne(v,w,replace)", "<"), ("pickOne(const v,const w)", "<"), ("pickFromCumSum", "<="),
        ("pickFromCumSum.loop", "<"), ("getSample.tooLong", ">"), ("getSampleW.tooLong", ">"),
        ("randMultinomial", "<="), ("AbstractDiscreteDistribution::rand", "<="), ("hmm.first", "<"),
-       ("hmm.next", "<"), ("ContingencyTableTest.count", ">=")] := by decide
+       ("hmm.next", "<"), ("ContingencyTableTest.count", ">="), ("ContingencyTableTest.loop", "<"),
+       ("ContingencyTableTest.pvalue=(count+1)/(nbPermutations+1)", "/")] := by decide
 
 /-- the unrepaired sources (before `fix:` 54d504f, 5746c3e, 985f4b7): `randExponential(mean)` passed
 the mean as the rate, `randGamma(alpha, beta)` the rate as the scale, and
@@ -472,11 +716,11 @@ the mean as the rate, `randGamma(alpha, beta)` the rate as the scale, and
 theorem wrapper_conventions_unrepaired_witness :
     wrapperOk ⟨"randExponential/1", ["mean"], .exponential, [.var "mean"]⟩ = false ∧
     wrapperOk ⟨"randGamma/2", ["alpha", "beta"], .gamma, [.var "alpha", .var "beta"]⟩ = false ∧
-    randCOk Generated.wrappers ⟨"Gaussian", "randGaussian/2", [.var "mu", .var "sigma"]⟩ = false := by decide
+    randCOk Generated.wrappers ⟨"Gaussian", "randGaussian/2", [.var "mu", .var "sigma"], Expr.zero⟩ = false := by decide
 
 /-- … and they really denote different laws: e.g. at `mean = 4` the rate was 4 instead of 1/4 -/
 theorem randExponential_unrepaired_differs :
-    (⟨.exponential, [.var "mean"]⟩ : LawS).eval (fun _ => 4) ≠ (⟨.exponential, [.div Expr.one (.var "mean")]⟩ : LawS).eval (fun _ => 4) := by
+    (⟨.exponential, [.var "mean"], Expr.zero⟩ : LawS).eval (fun _ => 4) ≠ (⟨.exponential, [.div Expr.one (.var "mean")], Expr.zero⟩ : LawS).eval (fun _ => 4) := by
   simp [LawS.eval, Expr.eval, Expr.one]
   norm_num
 
